@@ -145,6 +145,8 @@ structure SiteCfg where
   htmlTitles : Bool := false
   isHtml : Str → Bool := fun _ => false
   title : Str → Option Str := fun _ => none
+  /-- `[handlers.dir.DirHandler] cachefile` -/
+  cachefile : Str := lit ".cache.pygopherd.dir"
 
 /-! ## what the file system says about one selector -/
 
@@ -208,6 +210,8 @@ def dispatch (c : SiteCfg) (st : StatFn) (sel : Str) : Handler :=
       then .gophermapDir else .dir
     | some (.file _) =>
       if c.gophermap && endsWithGophermap sel then .gophermapFile
+      -- the directory handler's own cache files are not content (`FileHandler.isdircachefile`)
+      else if isSuffixB (47 :: c.cachefile) sel then .notFound
       else if c.htmlTitles && c.isHtml sel then .htmlFile else .file
     | _ => .notFound
 
@@ -278,6 +282,12 @@ def kidsAt (st : StatFn) (sel : Str) : Option (List (Str × Node)) :=
   | some (.dir kids) => some kids
   | _ => none
 
+/-- `os.path.dirname(selector)`, with the root written as the empty base -/
+def dirnameSel (sel : Str) : Str :=
+  let d := (sel.reverse.dropWhile (· != 47)).reverse      -- up to and including the last slash
+  let d := (d.reverse.dropWhile (· == 47)).reverse          -- trailing slashes off (all of them: "/" becomes "")
+  d
+
 /-- entries of a listing request (`prepare` + `getdirlist`), by handler -/
 def siteEntries (c : SiteCfg) (st : StatFn) (sel : Str) : Option (List Entry) :=
   let base := if sel = [47] then [] else sel
@@ -289,8 +299,9 @@ def siteEntries (c : SiteCfg) (st : StatFn) (sel : Str) : Option (List Entry) :=
     (readAt st (base ++ lit "/gophermap")).bind fun d =>
       gmParse c.forbidden c.eaexts c.defaultMime base (popAt c st) (binLines d)
   | .gophermapFile =>
+    -- relative links in a gophermap *file* are relative to the directory the file is in
     (readAt st sel).bind fun d =>
-      gmParse c.forbidden c.eaexts c.defaultMime base (popAt c st) (binLines d)
+      gmParse c.forbidden c.eaexts c.defaultMime (dirnameSel sel) (popAt c st) (binLines d)
   | _ => none
 
 /-! ## well-formed trees -/
